@@ -157,3 +157,57 @@ func vC08Calls(budget int) {
 func Harness_C08_Calls_1() { vC08Calls(1) }
 func Harness_C08_Calls_2() { vC08Calls(2) }
 func Harness_C08_Calls_3() { vC08Calls(3) }
+
+// progressive results towards a caller whose queue is full for a while: they
+// reach the caller in yield order, the final result last, whatever the length
+// of the blockage (the callee's handler retries in line)
+func Harness_C08_ResultOrderBlockedCaller() {
+	r := vNewRouter(&Config{RealmConfigs: []*RealmConfig{{URI: "realm1", AnonymousAuth: true}}})
+	caller := vAttach(r, "realm1", nil, 1)
+	callee := vAttach(r, "realm1", nil, 64)
+	vAssert("attached", caller != nil && callee != nil)
+	callee.send(&wamp.Register{Request: 1, Procedure: "p"})
+	callee.drain()
+	caller.send(&wamp.Call{Request: 10, Procedure: "p", Options: wamp.Dict{"receive_progress": true}})
+	inv, n := vFindMsg[*wamp.Invocation](callee.drain())
+	vAssert("invocation", n == 1)
+	if n != 1 {
+		return
+	}
+	callee.send(&wamp.Yield{Request: inv.Request, Options: wamp.Dict{"progress": true}, Arguments: wamp.List{1}})
+	vQuiesce()
+	vAssert("first-result-queued", vQueued(caller) == 1)
+	sent := make(chan struct{})
+	go func() {
+		defer close(sent)
+		callee.send(&wamp.Yield{Request: inv.Request, Options: wamp.Dict{"progress": true}, Arguments: wamp.List{2}})
+		callee.send(&wamp.Yield{Request: inv.Request, Arguments: wamp.List{3}})
+	}()
+	vQuiesce()
+	// the caller does not read for a while
+	blocked := []int{0, 1, 4}[vChoice("blocked.seconds", 3)]
+	for i := 0; i < blocked; i++ {
+		vAdvance(int64(1000) * 1000000)
+	}
+	// then it reads everything
+	var got []wamp.Message
+	for i := 0; i < 8 && len(got) < 3; i++ {
+		got = append(got, caller.drain()...)
+		vAdvance(int64(4500) * 1000000)
+	}
+	got = append(got, caller.drain()...)
+	<-sent
+	vAssert("all-results-delivered", len(got) == 3)
+	for i, m := range got {
+		res, ok := m.(*wamp.Result)
+		vAssert("is-result", ok)
+		if !ok {
+			continue
+		}
+		prog, _ := res.Details["progress"].(bool)
+		vAssert("results-in-yield-order-final-last", len(res.Arguments) == 1 && res.Arguments[0] == any(i+1) && prog == (i < 2))
+	}
+	_, nint := vFindMsg[*wamp.Interrupt](callee.drain())
+	vAssert("no-spurious-interrupt", nint == 0)
+	vCover("blocked-caller-order-checked(virtual-time)")
+}
